@@ -1334,12 +1334,15 @@ def gen_C20(rng, tier):
     ex = com_execute(1, params, True)
     prep = [prep_ok(1, pcols, [])]
 
+    reuse = com_execute(1, params, False)
+
     def mut_conv(sid, payload, first=None, seq0=0):
         wire = frame(com_prepare("S"), 0)
         if first is not None:
             wire += frame(first, 0)
-        wire += frame(payload, seq0) + frame(com_ping(), 0)
-        return raw_conv(sid, wire, prepares=prep, programs=[[op_completed(0, 0)]] * 4)
+        # the mutated packet, then a ping, then an execution that re-uses whatever the server kept
+        wire += frame(payload, seq0) + frame(com_ping(), 0) + frame(reuse, 0) + frame(com_ping(), 0)
+        return raw_conv(sid, wire, prepares=prep, programs=[[op_completed(0, 0)]] * 5)
 
     for cut in range(len(ex) + 1):                      # truncation at every length
         out.append(mut_conv("C20-m-cut%03d" % cut, ex[:cut]))
@@ -1558,3 +1561,78 @@ def _c12_extra(rng, tier):
 gen_C10 = (lambda f: (lambda rng, tier: f(rng, tier) + _c10_reprepare(rng, tier)))(gen_C10)
 gen_C12 = (lambda f: (lambda rng, tier: f(rng, tier) + _c12_extra(rng, tier)))(gen_C12)
 gen_C19 = (lambda f: (lambda rng, tier, probe=None: f(rng, tier, probe) + GB.gen_C19_big(rng, tier)))(gen_C19)
+
+
+def _c16_extra(rng, tier):
+    out = []
+    n = 18 if tier == "quick" else 150
+    for i in range(n):
+        c = Conv("C16-x%03d" % i, mode=rng.choice(["lockstep", "pipelined"]))
+        v = i % 3
+        if v == 0:
+            # long data must not disturb the statement's bound types
+            c.prepare("S", prep_ok(4, [col("a", T_LONGLONG), col("b", T_BLOB)], []))
+            c.cmd(com_long_data(4, 1, b"xy"))
+            c.execute(4, [p_int(T_LONGLONG, 8), p_long(T_BLOB)], [op_completed(1, 0)])
+            c.execute(4, [p_int(T_LONGLONG, 9), p_bytes(T_BLOB, b"inline")], [op_completed(2, 0)], rebind=False)
+            c.cmd(com_long_data(4, 1, b"again"))
+            c.execute(4, [p_int(T_LONGLONG, 10), p_long(T_BLOB)], [op_completed(3, 0)], rebind=False)
+        elif v == 1:
+            # rebind replaces the earlier types completely, and another statement is not influenced
+            c.prepare("S", prep_ok(1, [col("a", T_LONGLONG)], []))
+            c.prepare("T", prep_ok(2, [col("a", T_VAR_STRING)], []))
+            c.execute(1, [p_int(T_LONGLONG, 7)], [op_completed(1, 0)])
+            c.execute(2, [p_bytes(T_VAR_STRING, b"abc")], [op_completed(1, 0)])
+            c.execute(1, [p_bytes(T_VAR_STRING, b"abc")], [op_completed(2, 0)])
+            c.execute(1, [p_bytes(T_VAR_STRING, b"xyz")], [op_completed(3, 0)], rebind=False)
+            c.execute(2, [p_bytes(T_VAR_STRING, b"q")], [op_completed(2, 0)], rebind=False)
+            c.execute(1, [p_int(T_TINY, 5, uns=True)], [op_completed(4, 0)])
+            c.execute(1, [p_int(T_TINY, 200, uns=True)], [op_completed(5, 0)], rebind=False)
+        else:
+            # a statement prepared again under the same id starts without bound types
+            c.prepare("S", prep_ok(6, [col("a", T_VAR_STRING)], []))
+            c.execute(6, [p_bytes(T_VAR_STRING, b"old")], [op_completed(1, 0)])
+            c.prepare("S2", prep_ok(6, [col("a", T_VAR_STRING)], []))
+            c.execute(6, [p_bytes(T_VAR_STRING, b"new")], [op_completed(2, 0)], rebind=False)
+        c.ping()
+        c.quit()
+        out.append(c.build())
+    return out
+
+
+gen_C16 = (lambda f: (lambda rng, tier: f(rng, tier) + _c16_extra(rng, tier)))(gen_C16)
+
+
+def _c18_extra(rng, tier):
+    out = []
+    # replies larger than the TLS layer accepts in one write (64 KiB): served exactly as over plaintext
+    for i, n in enumerate([70000, 100000, 200000] if tier == "quick" else [65000, 65536, 66000, 70000, 100000, 200000, 500000]):
+        for tls in (True, False):
+            if tls:
+                c = tls_conv("C18-big%d-t" % i, rng, ncmd=0)
+                c.msgs = c.msgs[:2]          # SSL request + handshake response
+                c.programs = []
+            else:
+                c = Conv("C18-big%d-p" % i, mode="lockstep", tls=True)
+            cols = [col("blob", T_BLOB)]
+            data = bytes((j * 7 + n) % 251 for j in range(n))
+            c.query("SELECT blob", [op_start(cols), op_write_row([v_bytes(data, "vec")]), op_write_row([v_bytes(b"tail", "bytes")]), op_finish()])
+            c.ping()
+            c.quit()
+            if tls:
+                c.meta = {"twin": "C18-big%d-p" % i}
+            out.append(c.build())
+    # a ClientHello of several KiB arriving in the same read as the SSL request
+    for i, alpn in enumerate([3000, 5000, 9000, 14000] if tier == "quick" else [3000, 4000, 4100, 5000, 9000, 14000, 20000]):
+        for k, cuts in enumerate([[], [36], [36 + 4096], [36 + 4097], [20]]):
+            c = tls_conv("C18-hello%d-%d" % (i, k), rng, ncmd=1)
+            c.alpn_bytes = alpn
+            sc = c.build()
+            sc["transport"]["cuts"] = cuts
+            sc["transport"]["chunks"] = []
+            sc["transport"]["then"] = 0
+            out.append(sc)
+    return out
+
+
+gen_C18 = (lambda f: (lambda rng, tier: f(rng, tier) + _c18_extra(rng, tier)))(gen_C18)
